@@ -66,7 +66,48 @@ def gen_case(rng, exact=True):
         ts = [({u: sgn * (lam1 * a11 + lam2 * a21), v2: sgn * (lam1 * a12 + lam2 * a22), rng.choice(keep): gen.rand_coef(rng)}, F(rng.randint(0, 8)))]
         order = rng.choice([[5], [5, 1], [2, 5]])
         simplify = False
+    elif rng.random() < 0.15:
+        # bounded LP over eliminated AND kept variables: n independent forms, each two-sided, so the optimum is a vertex whose
+        # active rows are a basis of the whole space; restricted to the eliminated columns the first active rows need not bound
+        # the term at all (the sign of the multipliers decides) -- tactic 5's acceptance test is what is exercised here
+        nk = rng.randint(1, 2)
+        names = gen.VARS[:2 + nk]
+        elim = names[:2]
+        n_ = len(names)
+        while True:
+            mat = [[F(rng.choice([-3, -2, -1, 0, 1, 2, 3])) for _ in range(n_)] for _ in range(n_)]
+            if _det(mat) != 0 and all(any(r) for r in mat):
+                break
+        ctx = []
+        for r in mat:
+            lin = {names[j]: r[j] for j in range(n_) if r[j] != 0}
+            ctx += [(dict(lin), F(rng.randint(0, 6))), ({k_: -a for k_, a in lin.items()}, F(rng.randint(0, 6)))]
+        rng.shuffle(ctx)
+        lin = {elim[0]: F(rng.choice([-3, -2, -1, 1, 2, 3])), elim[1]: F(rng.choice([-3, -2, -1, 1, 2, 3]))}
+        for k_ in names[2:]:
+            if rng.random() < 0.6:
+                lin[k_] = F(rng.choice([-2, -1, 1, 2]))
+        ts = [(lin, F(rng.randint(0, 8)))]
+        order = rng.choice([[5], [5, 1], [2, 5], [1, 2, 3, 4, 5]])
+        simplify = False
     return ts, ctx, elim, refine, simplify, order
+
+
+def _det(m):
+    m = [list(r) for r in m]
+    n_, d = len(m), F(1)
+    for i in range(n_):
+        piv = next((r for r in range(i, n_) if m[r][i] != 0), None)
+        if piv is None:
+            return F(0)
+        if piv != i:
+            m[i], m[piv] = m[piv], m[i]
+            d = -d
+        d *= m[i][i]
+        for r in range(i + 1, n_):
+            f = m[r][i] / m[i][i]
+            m[r] = [a - f * b for a, b in zip(m[r], m[i])]
+    return d
 
 
 def exact_safe(ts, elim):
